@@ -29,6 +29,7 @@ func init() {
 			bothKindsCompacted(r)
 			kvSizeBoundaryAgreement(r)
 			semaphoreReleased(r, "semaphore-released")
+			kvPutGrowsStore(r)
 		},
 	})
 }
